@@ -1766,6 +1766,12 @@ def correspondence(ctx):
                 nontrivial.add(core.canon([op[:5], ci.get("res"), len(ci.get("stamps", []))]))
         if n == 1 and len(h) > 20:
             samples.append({"case": h[18], "model": mouts[18]})
+    # ---- 3. the table of touch states against every public member of every class ----------------------------
+    n, dis, seen = table_sweep(ctx, dist)
+    evaluations += n
+    disagreements += dis
+    for k in seen:
+        nontrivial.add(core.canon(["member_sweep", list(k)]))
     disagreements.sort(key=lambda d: len(core.canon(d.case)))
     cov = setter_coverage()
     dist.update({"history_ops": opdist, "impl_results": res_kinds, "histories": len(histories),
@@ -1782,6 +1788,84 @@ def correspondence(ctx):
                     "set of entity ids in the file compared after every operation. non-trivial = distinct "
                     "(operation, outcome, population size)",
             "samples": samples, "distribution": dist, "disagreements": disagreements, "exhaustive": False}
+
+
+DELEGATES = {("RangeDimension", "label"): ("DimensionLink.label", ("DataArray", "DataFrame")),
+             ("RangeDimension", "unit"): ("DimensionLink.unit", ("DataArray", "DataFrame")),
+             ("Section", "__setitem__"): ("Property.values", ("Property",))}
+
+
+def table_sweep(ctx, dist):
+    """the generated table of touch states against the implementation, for EVERY public member of every class: the
+    member sweep of c19_off with the switch ON records which stored stamps each call changed; the model's table
+    (driver op `resolve`: the outcomes of the member Python's MRO reaches) says which it may / must change:
+    no outcome with a touch -> nothing; `self` on some path -> at most the object itself, and exactly it (= the clock)
+    when every returning path has it and the call was accepted; `linked` -> exactly one data object; created_at never.
+    -> (evaluations, disagreements, distinct (class, member, accepted))"""
+    from . import c19_off
+    recs = []
+    n, fails, cov = c19_off.run(ctx, ctx.rng, share=0, on_share=ctx.budget(0.25, 1.0), records=recs)
+    ctx.__dict__["c19_on_sweep"] = {"calls": n, "failures": fails, "coverage": cov}
+    keys = sorted(set((r["cls"], r["member"]) for r in recs))
+    model = core.run_driver(PROP, [["resolve", c, m] for c, m in keys])
+    table = {k: (m.get("ok") if isinstance(m, dict) else None) for k, m in zip(keys, model)}
+    out = []
+    seen = set()
+    kinds = {}
+    for r in recs:
+        t = table[(r["cls"], r["member"])]
+        case = {"member_sweep": {k: r[k] for k in ("cls", "member", "kind", "on", "recipe", "shown", "accepted", "variant")}}
+        upd = [c for c in r["changed"] if c[2] == "updated_at"]
+        cre = [c for c in r["changed"] if c[2] == "created_at"]
+        seen.add((r["cls"], r["member"], r["accepted"]))
+        if t is None:
+            out.append(Disagreement(case, "no such member in the generated table", r["changed"]))
+            continue
+        if t["kind"] in ("forceCreated", "forceUpdated"):
+            kinds["force"] = kinds.get("force", 0) + 1
+            continue          # the explicit force calls: the force histories
+        touches = sorted(set(o[1] for o in t["outcomes"] if o[0] == ("returns" if r["accepted"] else "raises")))
+        if not touches:
+            if r["accepted"]:
+                out.append(Disagreement(case, "the table has no returning path for this member", "accepted"))
+                continue
+            touches = ["none"]         # refused at the call boundary
+        key = "+".join(touches)
+        kinds[key] = kinds.get(key, 0) + 1
+        pred = {"touches": touches}
+        bad = None
+        # a member that hands the change on to a public member of ANOTHER object: that object's own table entry says
+        # what is stamped (`dim.label = ...` / `dim.unit = ...` of a linked RangeDimension is DimensionLink.label /
+        # .unit: the linked data object; `section[name] = values` for a name in use is `property.values = values`)
+        via = DELEGATES.get((r["cls"], r["member"]))
+        if via is not None and upd and not cre:
+            ok_cls = via[1]
+            if len(upd) == 1 and upd[0][1] in ok_cls and upd[0][3] == r["now"]:
+                kinds["delegated"] = kinds.get("delegated", 0) + 1
+                continue
+        if cre:
+            bad = "created_at changed"
+        elif not (set(touches) - {"none"}):
+            if upd:
+                bad = "no path of the member stamps anything"
+        elif "linked" in touches:
+            if len(upd) > 1 or [c for c in upd if c[1] not in ("DataArray", "DataFrame")]:
+                bad = "only the linked data object may be stamped"
+            elif r["accepted"] and touches == ["linked"] and len(upd) != 1:
+                bad = "the linked data object must be stamped"
+        else:
+            if [c for c in upd if c[0] != r["self"]]:
+                bad = "only the object itself may be stamped"
+            elif r["accepted"] and not (set(touches) - {"self", "always"}) and r["self"] is not None \
+                    and r["self_updated"] != r["now"]:
+                bad = "every returning path stamps the object itself with the clock"
+        if bad:
+            pred["violated"] = bad
+            out.append(Disagreement(case, pred, {"changed": r["changed"], "self": r["self"],
+                                                 "self_updated": r["self_updated"], "clock": r["now"]}))
+    dist["member_sweep_on"] = {"calls": len(recs), "members": len(keys), "by_predicted_touch": kinds,
+                               "objects": cov.get("objects_on"), "never_accepted": cov.get("members_never_accepted")}
+    return len(recs), out, seen
 
 
 def resolution_cases():
@@ -2105,9 +2189,13 @@ def oracle(ctx, broken, hints):
     # updated_at backwards).  All objects when something is broken and in the thorough tier, a share of them otherwise.
     from . import c19_off
     full = broken or not ctx.quick()
+    cached = ctx.__dict__.get("c19_on_sweep")        # the switch-on sessions the correspondence has run already
     try:
         n, f, cov = c19_off.run(ctx, rng, share=1.0 if full else 0.3, pristine=not ctx.quick(), second_pass=full,
-                                on_share=1.0 if full else 0.12)
+                                on_share=(1.0 if broken else 0.0) if cached else (1.0 if full else 0.12))
+        if cached:
+            n += cached["calls"]
+            f = f + [x for x in cached["failures"] if (x.what, x.site) not in set((y.what, y.site) for y in f)]
     except Exception as e:
         ctx.notes.append("switch-off sweep aborted: %s: %s" % (type(e).__name__, e))
         n, f, cov = 0, [], {"aborted": "%s: %s" % (type(e).__name__, e)}
